@@ -65,6 +65,12 @@ func checkAnalyzer(id string, c *gen.APICase) Outcome {
 		return out
 	}
 	x := oracle.IndexDoc(doc)
+	// generator self-check: nothing the walker sees in the generated document may be lost by the
+	// spec model's serialisation (the oracle reads the serialised form, the library the loaded one)
+	if gx := oracle.IndexDoc(c.Doc); len(gx.Refs["all"]) != len(x.Refs["all"]) || len(gx.Schemas) != len(x.Schemas) || len(gx.Pat["all"]) != len(x.Pat["all"]) || len(gx.Enum["all"]) != len(x.Enum["all"]) {
+		out.Harness = "self-check: the generated document is not preserved by the spec model's serialisation: " + Trunc(string(Marshal(c.Doc)), 1500)
+		return out
+	}
 	var err error
 	switch id {
 	case "C11":
